@@ -120,9 +120,21 @@ def find_call(recs, func, fid, leaves):
     return cand[0] if cand else None
 
 
+def shared_source(recs, j, f):
+    """f is a source of target j only through positional values that another target lists as well as a whole
+    (approximation of "comes from a shared variable"): the rewriter documents no behaviour for that."""
+    mine = recs[j][1]
+    if f in [('s', os.path.normpath(x[1])) for x in mine.get('lit', [])]:
+        return False
+    for k, (_, r) in enumerate(recs):
+        if k != j and r['src'] is not None and f in [('s', os.path.normpath(x[1])) for x in r['src'] if x[0] == 's']:
+            return True
+    return False
+
+
 def copy_rec(r):
     return {'fname': r['fname'], 'pos': list(r['pos']), 'kw': list(r['kw']), 'src': None if r['src'] is None else list(r['src']),
-            'items_kw': {k: list(v) for k, v in r['items_kw'].items()}}
+            'items_kw': {k: list(v) for k, v in r['items_kw'].items()}, 'new': r.get('new', False), 'lit': list(r.get('lit', []))}
 
 
 def defopt_pairs(c):
@@ -149,7 +161,7 @@ def model_apply(recs, leaves, env, cmd):
             if j is not None:
                 raise Refused('target exists')
             t['append'] = True
-            new = {'fname': 'executable', 'pos': [('s', cmd['target'])], 'kw': [], 'items_kw': {},
+            new = {'fname': 'executable', 'pos': [('s', cmd['target'])], 'kw': [], 'items_kw': {}, 'new': True,
                    'src': sorted([('s', f) for f in cmd['sources']], key=repr)}
             return recs + [(None, new)], t
         if j is None:
@@ -179,6 +191,8 @@ def model_apply(recs, leaves, env, cmd):
                         norm.append(f)
                         t['add'].append(f)
             else:
+                if any(f in norm and shared_source(recs, j, f) for f in files):
+                    raise ModelUnspecified('the file reaches the target through a list another target uses too')
                 for f in files:
                     if f in norm:
                         i = norm.index(f)
@@ -242,7 +256,7 @@ def model_apply(recs, leaves, env, cmd):
             if k in ID_LIST_KW:
                 if any(x not in env for x in vals):
                     raise ModelUnspecified('identifier to add is not defined')
-                add = [reflang.canon(env[x]) for x in vals]
+                add = [L.shallow(reflang.canon(env[x])) for x in vals]
             else:
                 add = [canon_py(x) for x in vals]
             new = ('l', tuple(listify(old)[1] if old is not None else ()) + tuple(add))
@@ -252,7 +266,7 @@ def model_apply(recs, leaves, env, cmd):
             vals = v if isinstance(v, list) else [v]
             if op == 'remove':
                 if k in ID_LIST_KW:
-                    rm = [reflang.canon(env[x]) for x in vals if x in env]
+                    rm = [L.shallow(reflang.canon(env[x])) for x in vals if x in env]
                 else:
                     rm = [canon_py(x) for x in vals]
                 new = ('l', tuple(x for x in listify(old)[1] if x not in rm))
@@ -305,11 +319,13 @@ def compare_exact(exp, got, touched_keys, src_touched):
     if exp['src'] is not None:
         if exp['src'] != got['src']:
             d.append(('src', None))
-    if exp['src'] is None or not src_touched:
+    if (exp['src'] is None or not src_touched) and not exp.get('new'):
         if exp['pos'] != got['pos']:
             d.append(('pos', None))
-    ek = [k for k, _ in exp['kw']]
-    gk = [k for k, _ in got['kw']]
+    # for an addressed keyword, absent and the empty array are the same request
+    empty = ('l', ())
+    ek = [k for k, v in exp['kw'] if not (k in touched_keys and v == empty)]
+    gk = [k for k, v in got['kw'] if not (k in touched_keys and v == empty)]
     if sorted(ek) != sorted(gk):
         d.append(('kwset', tuple(sorted(set(ek) ^ set(gk)))))
     else:
@@ -319,8 +335,11 @@ def compare_exact(exp, got, touched_keys, src_touched):
             d.append(('kworder', None))
         gd = dict(got['kw'])
         for k, v in exp['kw']:
+            if k not in gd:
+                continue
             if v == ('items',):
-                if exp['items_kw'].get(k) != got['items_kw'].get(k):
+                # `sources:` is part of the source multiset compared above
+                if k != 'sources' and exp['items_kw'].get(k) != got['items_kw'].get(k):
                     d.append(('kw', k))
             elif not kw_equal(k, v, gd[k], k in touched_keys):
                 d.append(('kw', k))
@@ -365,7 +384,8 @@ def compare_diff(old, new, touched_keys, add, rm, src_touched):
             if v == UNSPECM:
                 continue
             if v == ('items',):
-                if old['items_kw'].get(k) != new['items_kw'].get(k):
+                gone, came = multiset_diff(old['items_kw'].get(k) or [], new['items_kw'].get(k) or [])
+                if any(x not in rm for x in gone) or any(x not in add for x in came):
                     d.append(('kw', k))
             elif nd[k] != v:
                 d.append(('kw', k))
@@ -391,6 +411,34 @@ def real_parse_error(text):
 def exc_name(out):
     m = re.findall(r'^(\w+(?:\.\w+)*(?:Error|Exception|Interrupt|Exit)\w*)\b', out, re.M)
     return m[-1] if m else 'unknown'
+
+
+def has_ordering_comparison(rd):
+    def go(e):
+        if e[0] == 'cmp' and e[1] in ('<', '<=', '>', '>='):
+            return True
+        return any(go(ch) for _, ch in L.children(e))
+    return any(go(L.stmt_rhs(st)) for _, _, st in rd.leaves if L.stmt_rhs(st) is not None)
+
+
+def untaken_branch_fails(rd):
+    """Some ternary / and / or of the file has an operand that fails in the file's own environment but is never
+    evaluated there."""
+    env = rd.env
+
+    def go(e):
+        if e[0] == 'tern':
+            c = L.evalm(e[1], env)
+            if c == ('b', True) and L.evalm(e[3], env) == FAILM:
+                return True
+            if c == ('b', False) and L.evalm(e[2], env) == FAILM:
+                return True
+        if e[0] in ('and', 'or'):
+            c = L.evalm(e[1], env)
+            if c == ('b', e[0] == 'or') and L.evalm(e[2], env) == FAILM:
+                return True
+        return any(go(ch) for _, ch in L.children(e))
+    return any(go(L.stmt_rhs(st)) for _, _, st in rd.leaves if L.stmt_rhs(st) is not None)
 
 
 def allowed_leaves(reading, cmds):
@@ -432,20 +480,37 @@ def allowed_leaves(reading, cmds):
     return allowed
 
 
-def domain_envs(ids, base_env, cap=600):
-    typed = [i for i in ids if i in L.VAR_TYPE]
-    doms = [L.DOMAIN[L.VAR_TYPE[i]] for i in typed]
-    n = 1
-    for dm in doms:
-        n *= len(dm)
-    capped = n > cap
+def units(e):
+    """The argument expressions of a re-printed statement, split down to array elements / files() arguments."""
+    e = L.unparen(e)
+    if e[0] == 'arr':
+        return [u for x in e[1] for u in units(x)]
+    if e[0] == 'call' and (e[1] in L.TARGET_FUNCS or e[1] in ('project', 'dependency', 'files')):
+        return [u for x in list(e[2]) + [v for _, v in e[3]] for u in units(x)]
+    return [e]
+
+
+def domain_envs(exprs, base_env, cap=1024):
+    """Every assignment of the typed free identifiers of each argument expression over the per-type domain (the
+    identifiers of the other arguments keep the value the file gives them).  Returns (envs, number of capped units)."""
+    seen = set()
     out = []
-    for k, combo in enumerate(itertools.product(*doms)):
-        if k >= cap:
-            break
-        env = dict(base_env)
-        env.update(zip(typed, combo))
-        out.append(env)
+    capped = 0
+    for rhs in exprs:
+        for u in units(rhs):
+            typed = [i for i in L.free_ids(u) if i in L.VAR_TYPE]
+            doms = [L.DOMAIN[L.VAR_TYPE[i]] for i in typed]
+            for k, combo in enumerate(itertools.product(*doms)):
+                if k >= cap:
+                    capped += 1
+                    break
+                key = tuple(sorted((n, repr(v)) for n, v in zip(typed, combo)))
+                if key in seen:
+                    continue
+                seen.add(key)
+                env = dict(base_env)
+                env.update(zip(typed, combo))
+                out.append(env)
     return out, capped
 
 
@@ -513,6 +578,19 @@ def explain(oc, nc, what, key):
 
 def check_step(cmds, form, t0, t1, res, counters):
     """All clauses for one process run.  Returns list of (key, what)."""
+    pre = []
+    if '\r\n' in t0:
+        if t1 != t0 and '\r' not in t1:
+            pre.append(('C17:locality:crlf-normalised', '%s rewrote every CRLF line ending of the file to LF'
+                        % '+'.join(cmd_label(c) for c in cmds)))
+        # the reference grammar knows LF only; the remaining clauses are decided on LF-normalised texts
+        t0 = t0.replace('\r\n', '\n')
+        t1 = t1.replace('\r\n', '\n')
+        counters['crlf_inputs'] += 1
+    return pre + check_step_lf(cmds, form, t0, t1, res, counters)
+
+
+def check_step_lf(cmds, form, t0, t1, res, counters):
     V = []
     ops = '+'.join(cmd_label(c) for c in cmds)
     out = res['out']
@@ -522,6 +600,7 @@ def check_step(cmds, form, t0, t1, res, counters):
         return [('C17:internal:unreadable-input', 'reference cannot read the input of this step: %s' % e)]
     # ---- reference model
     expect_refusal = False
+    refused_after = None
     model_unspec = None
     exp = rd0.records
     touched = []
@@ -530,7 +609,12 @@ def check_step(cmds, form, t0, t1, res, counters):
             exp, tch = model_apply(exp, rd0.leaves, rd0.env, c)
             touched.append(tch)
     except Refused:
-        expect_refusal = True
+        if touched:
+            # commands before the refused one have been applied and written
+            refused_after = len(touched)
+            cmds = cmds[:refused_after]
+        else:
+            expect_refusal = True
     except ModelUnspecified as e:
         model_unspec = str(e)
         counters['skipped_unspecified'] += 1
@@ -538,7 +622,7 @@ def check_step(cmds, form, t0, t1, res, counters):
     if res['unhandled'] or res['signaled']:
         V.append(('C17:crash:%s:%s' % (cmds[-1]['operation'] if len(cmds) == 1 else 'sequence', exc_name(out)),
                   '%s died with an unhandled exception: %s' % (ops, out.strip().splitlines()[-4:] if out.strip() else '')))
-        if t1 != t0:
+        if t1 != t0 and len(cmds) == 1:
             V.append(('C17:error-but-modified', '%s crashed and still changed the file' % ops))
         return V
     if expect_refusal:
@@ -548,7 +632,20 @@ def check_step(cmds, form, t0, t1, res, counters):
         elif res['rc'] == 0:
             V.append(('C17:refusal-exit-0:%s' % ops, '%s cannot be done but exit status is 0' % ops))
         return V
-    if res['rc'] != 0:
+    if refused_after is not None:
+        counters['refusals'] += 1
+        if res['rc'] == 0:
+            return [('C17:refusal-exit-0:%s' % ops, 'the last command of %s cannot be done but exit status is 0' % ops)]
+    elif res['rc'] != 0:
+        if 'Unhandled node type' in out and has_ordering_comparison(rd0):
+            V.append(('C17:refused:unhandled-node:ordering-comparison',
+                      '%s is refused with "Unhandled node type ... This is a Meson bug": the file contains a <, <=, > or >= comparison' % ops))
+            return V
+        if 'Unhandled' not in out and untaken_branch_fails(rd0):
+            V.append(('C17:refused:untaken-branch-evaluated',
+                      '%s is refused because the rewriter evaluates the branch of a ternary / and / or that the file never takes: %s'
+                      % (ops, out.strip()[-200:])))
+            return V
         V.append(('C17:refused:%s' % ops, '%s failed with exit status %d: %s' % (ops, res['rc'], out.strip()[-300:])))
         if t1 != t0:
             V.append(('C17:error-but-modified', '%s failed and still changed the file' % ops))
@@ -567,10 +664,7 @@ def check_step(cmds, form, t0, t1, res, counters):
     append = any(c['type'] == 'target' and c['operation'] == 'target_add' for c in cmds)
     runs, why = L.skeleton_match(t0, t1, rd0.leaves, allowed, append)
     if runs is None:
-        if '\r\n' in t0 and t1.replace('\r\n', '\n') == t1 and '\r' not in t1:
-            V.append(('C17:locality:crlf-normalised', 'every CRLF line ending of the file was rewritten to LF (%s)' % ops))
-        else:
-            V.append(('C17:locality:other-text-changed', '%s: %s' % (ops, why)))
+        V.append(('C17:locality:other-text-changed', '%s: %s' % (ops, why)))
         return V
     # ---- (1) the touched file parses
     perr = real_parse_error(t1)
@@ -608,6 +702,7 @@ def check_step(cmds, form, t0, t1, res, counters):
         return V
     # ---- per run: pair old and new statements; (4) other arguments keep value / failure over the domain
     edited = 0
+    edited_vars = []
     for run, text in runs:
         olds = [rd0.leaves[i] for i in run]
         try:
@@ -615,7 +710,7 @@ def check_step(cmds, form, t0, t1, res, counters):
         except (SyntaxFail, Unspecified) as e:
             V.append(('C17:internal:replacement-unparsable', 'whole file parses but the isolated replacement does not: %r' % text[:200]))
             return V
-        removed_expected = sum(1 for t in touched if t['rm'])
+        removed_expected = sum(1 for c in cmds if c['type'] == 'target' and c['operation'] == 'target_rm')
         if not run:
             # appended statements (target_add): checked at program level
             continue
@@ -635,6 +730,8 @@ def check_step(cmds, form, t0, t1, res, counters):
             if t0[os_:oe] == text[ns:ne]:
                 continue
             edited += 1
+            if L.tracked_call(ost) is None and ost[0] in ('assign', 'plusassign'):
+                edited_vars.append(ost[1])
             V += check_edited_statement(ost, nst, cmds, touched, rd0, counters, ops)
     counters['edited_statements'] += edited
     if edited > len(cmds):
@@ -643,10 +740,36 @@ def check_step(cmds, form, t0, t1, res, counters):
         return V
     # ---- (2) program level: every tracked call has exactly the expected record
     if model_unspec is None and rd0.eval_ok and rd1 is not None and rd1.eval_ok:
-        V += check_program(exp, touched, rd1, ops, cmds, form, counters)
+        V += check_program(exp, touched, rd0, rd1, ops, cmds, form, counters, edited_vars)
+    elif model_unspec is not None and rd0.eval_ok and rd1 is not None and rd1.eval_ok:
+        # the value of the addressed call is not prescribed here, every other call still is
+        V += check_others(rd0, rd1, cmds, ops, counters)
     else:
         counters['program_level_skipped'] += 1
     return V
+
+
+def permitted(cmds):
+    """What a step may change in a re-printed statement: (addressed keyword names, source/extra-file strings that
+    may appear, strings that may disappear, whether positional sources may be reordered)."""
+    keys, add, rm = set(), [], []
+    src_touched = False
+    for c in cmds:
+        if c['type'] == 'default_options':
+            keys.add('default_options')
+        elif c['type'] == 'kwargs':
+            keys |= set(c['kwargs'])
+        else:
+            files = [('s', f) for f in c['sources']] + [('s', os.path.normpath(f)) for f in c['sources']]
+            if c['operation'] in ('src_add', 'extra_files_add'):
+                add += files
+            elif c['operation'] in ('src_rm', 'extra_files_rm'):
+                rm += files
+            if c['operation'] in ('src_add', 'src_rm'):
+                src_touched = True
+            if c['operation'].startswith('extra_files'):
+                keys.add('extra_files')
+    return keys, add, rm, src_touched
 
 
 def check_edited_statement(ost, nst, cmds, touched, rd0, counters, ops):
@@ -660,16 +783,9 @@ def check_edited_statement(ost, nst, cmds, touched, rd0, counters, ops):
     for x in L.free_ids(orhs) + L.free_ids(nrhs):
         if x not in ids:
             ids.append(x)
-    envs, capped = domain_envs(ids, rd0.env)
-    if capped:
-        counters['domain_capped'] += 1
-    keys, add, rm = set(), [], []
-    src_touched = False
-    for t in touched:
-        keys |= t['keys']
-        add += t['add']
-        rm += t['del']
-        src_touched = src_touched or t['src']
+    envs, capped = domain_envs([orhs, nrhs], rd0.env)
+    counters['domain_capped'] += capped
+    keys, add, rm, src_touched = permitted(cmds)
     oc = L.tracked_call(ost)
     nc = L.tracked_call(nst)
     seen = set()
@@ -716,7 +832,37 @@ def _env_brief(env, ids):
     return {i: env[i] for i in ids if i in L.VAR_TYPE}
 
 
-def check_program(exp, touched, rd1, ops, cmds, form, counters):
+def spine_ids(rd, call):
+    """Identifiers whose value is (part of) the source list of a target call: reached through array elements,
+    files() arguments, `+` operands and plain references - not through an index or a method call."""
+    out = set()
+
+    def go(e):
+        e = L.unparen(e)
+        if e[0] == 'id':
+            if e[1] not in out:
+                out.add(e[1])
+                for _, _, st in rd.leaves:
+                    if st[0] in ('assign', 'plusassign') and st[1] == e[1]:
+                        go(st[2])
+        elif e[0] == 'arr':
+            for x in e[1]:
+                go(x)
+        elif e[0] == 'call' and e[1] == 'files':
+            for x in e[2]:
+                go(x)
+        elif e[0] == 'bin' and e[1] == '+':
+            go(e[2])
+            go(e[3])
+        elif e[0] == 'tern':
+            go(e[2])
+            go(e[3])
+    for a in list(call[2][1:]) + [v for k, v in call[3] if k in L.ITEM_KW]:
+        go(a)
+    return out
+
+
+def check_program(exp, touched, rd0, rd1, ops, cmds, form, counters, edited_vars):
     V = []
     got = rd1.records
     keys = set()
@@ -741,12 +887,45 @@ def check_program(exp, touched, rd1, ops, cmds, form, counters):
             if what == 'kw' and key in keys:
                 vv = dict(gr['kw']).get(key)
                 ev_ = dict(er['kw']).get(key)
-                sub = 'cli-bool-false' if (form == 'cli' and ev_ == ('b', False) and vv == ('b', True)) else key
-                V.append(('C17:value:%s:%s' % (ops, sub), 'after %s keyword %s of %s(%s) is %r, requested %r' % (ops, key, er['fname'], name, vv, ev_)))
+                kk = 'C17:value:kwargs-set:cli-bool-false' if (form == 'cli' and ev_ == ('b', False) and vv == ('b', True)) \
+                    else 'C17:value:%s:%s' % (ops, key)
+                V.append((kk, 'after %s keyword %s of %s(%s) is %r, requested %r' % (ops, key, er['fname'], name, vv, ev_)))
+            elif what == 'src' and edited_vars and eli is not None and \
+                    any(v not in spine_ids(rd0, L.tracked_call(rd0.leaves[eli][2])) for v in edited_vars):
+                V.append(('C17:value:src_add:edited-array-that-is-only-indexed',
+                          'after %s the sources of %s are %r, expected %r: the file was added to / removed from the array %s, which the '
+                          'target only uses through an index or method call' % (ops, name, gr['src'], er['src'], edited_vars)))
             elif what == 'src':
                 V.append(('C17:value:%s:sources' % ops, 'after %s the sources of %s are %r, expected %r' % (ops, name, gr['src'], er['src'])))
             else:
                 V.append(('C17:value:%s:collateral-%s' % (ops, what), 'after %s: %s differs from the expected record' % (ops, detail)))
+    return V
+
+
+def check_others(rd0, rd1, cmds, ops, counters):
+    V = []
+    addressed = set()
+    for c in cmds:
+        if c['type'] == 'default_options':
+            addressed.add(('project', None))
+        elif c['type'] == 'kwargs':
+            addressed.add((c['function'], c['id']))
+        else:
+            addressed.add(('target', c['target']))
+    counters['others_only_compared'] += 1
+    got = {(r['fname'], L.rec_name(r)): r for _, r in rd1.records}
+    for li, r in rd0.records:
+        name = L.rec_name(r)
+        func = 'project' if r['fname'] == 'project' else ('dependency' if r['fname'] == 'dependency' else 'target')
+        var = rd0.leaves[li][2][1] if rd0.leaves[li][2][0] == 'assign' else None
+        if func == 'project' and any(f == 'project' for f, _ in addressed):
+            continue
+        if (func, name) in addressed or (func, var) in addressed:
+            continue
+        g = got.get((r['fname'], name))
+        if g is None or compare_exact(r, g, set(), False):
+            V.append(('C17:value:%s:other-call-changed' % ops, 'after %s the call %s(%s), which the command does not address, '
+                      'no longer has the same arguments' % (ops, r['fname'], name)))
     return V
 
 
@@ -831,7 +1010,7 @@ def new_counters():
     return {k: 0 for k in ('skipped_unspecified', 'refusals', 'info_cmds', 'text_unchanged', 'unparsable', 'edited_statements',
                            'program_level_skipped', 'program_level_compared', 'domain_capped', 'domain_evaluations',
                            'skipped_unspecified_env', 'value_changes', 'info_skipped_unknown', 'info_compared', 'processes',
-                           'observer_runs', 'steps')}
+                           'observer_runs', 'steps', 'crlf_inputs', 'crash_located', 'others_only_compared')}
 
 
 def run_rewrite(d, argv, cold=False):
@@ -867,6 +1046,19 @@ def run_case(case, cold=False):
                 t1 = f.read()
             texts.append(t1)
             v = check_step(step, case['form'], t0, t1, res, counters)
+            if v and len(step) > 1 and any(k.startswith('C17:crash:sequence:') for k, _ in v):
+                # diagnostic re-execution: which command of the JSON list dies?
+                counters['crash_located'] += 1
+                with open(path, 'w', encoding='utf-8', newline='') as f:
+                    f.write(t0)
+                op = 'sequence'
+                for c in step:
+                    r1 = run_rewrite(d, ['command', json.dumps([c])], cold)
+                    counters['processes'] += 1
+                    if r1['unhandled'] or r1['signaled']:
+                        op = c['operation']
+                        break
+                v = [(k.replace('C17:crash:sequence:', 'C17:crash:%s:' % op), w) for k, w in v]
             if v:
                 viol += v
                 break
@@ -898,36 +1090,18 @@ def run_case(case, cold=False):
 PROJECT_LINE = "project('p', version: '1.0', default_options: ['warning_level=2', 'werror=false'], license: ['MIT', 'BSD'])\n"
 
 
-def tern_wrap(text, ty, is_tern):
-    """Turn an expression of type ty into a string-typed one without parenthesising it (unless it is a ternary)."""
-    t = '(' + text + ')' if is_tern else text
-    if ty == 'str':
-        return text
-    if ty == 'bool':
-        return t + " ? 'yes.c' : 'no.c'"
-    if ty == 'int':
-        return 'l[' + text + ']'
-    return None
-
-
-def as_bool(text, ty, is_tern):
-    t = '(' + text + ')' if is_tern else text
-    if ty == 'bool':
-        return text
-    if ty == 'int':
-        return t + ' == 2'
-    if ty == 'str':
-        return t + " == 'x'"
-    return t + ' == []'
+def fmt_wrap(text, suffix=''):
+    """A string-typed expression whose value shows the value of an int/bool expression.  The expression sits in a
+    bracketed slot (a method argument), so the wrapper adds no grouping of its own."""
+    return "'v@0@%s'.format(%s)" % (suffix, text)
 
 
 CONTEXTS = ['target-call/src_add', 'target-call/kwargs', 'array', 'files', 'project', 'dependency']
 
 
-def layer_a_case(cid, etext, closed_text, ty, is_tern, ctx):
+def layer_a_case(cid, etext, closed_text, ty, ctx):
     """Project text + command for one expression in one context; None if the type has no slot there."""
     head = PROJECT_LINE + L.VARS_TEXT
-    dep = "dep = dependency('zlib', required: false)\n"
     if ctx.startswith('target-call'):
         if ty == 'bool':
             slot = 'install: ' + etext
@@ -936,13 +1110,13 @@ def layer_a_case(cid, etext, closed_text, ty, is_tern, ctx):
         elif ty == 'list':
             slot = 'c_args: ' + etext
         else:
-            slot = 'install: ' + as_bool(etext, ty, is_tern)
+            slot = 'name_prefix: ' + fmt_wrap(etext)
         text = head + "prog = executable('prog', 'main.c', 'alpha.c', %s, pie: false)\n" % slot
         if ctx.endswith('src_add'):
             return {'id': cid, 'text': text, 'cmds': [c_target('prog', 'src_add', ['new.c'])], 'form': 'cli'}
         return {'id': cid, 'text': text, 'cmds': [c_kwargs('set', 'target', 'prog', {'pie': True})], 'form': 'json'}
     if ctx in ('array', 'files'):
-        el = etext if ty in ('str', 'list') else tern_wrap(etext, ty, is_tern)
+        el = etext if ty in ('str', 'list') else fmt_wrap(etext, '.c')
         if ctx == 'array':
             text = head + "srcs = ['main.c', %s]\nprog = executable('prog', srcs, pie: false)\n" % el
         else:
@@ -954,21 +1128,17 @@ def layer_a_case(cid, etext, closed_text, ty, is_tern, ctx):
         if ty == 'list':
             slot = 'license: ' + closed_text
         else:
-            v = closed_text if ty == 'str' else (('(' + closed_text + ')' if is_tern else closed_text) + " ? '1' : '2'" if ty == 'bool'
-                                                 else "['m', 'n', 'o', 'k', 'j', 'i', 'h'][" + closed_text + ']')
-            slot = 'version: ' + v
+            slot = 'version: ' + (closed_text if ty == 'str' else fmt_wrap(closed_text))
         text = "project('p', %s, default_options: ['warning_level=2'])\n" % slot + L.VARS_TEXT + \
                "prog = executable('prog', 'main.c')\n"
         return {'id': cid, 'text': text, 'cmds': [c_kwargs('set', 'project', '/', {'meson_version': '>=0.50'})], 'form': 'cli'}
     if ctx == 'dependency':
         if ty == 'bool':
             slot = 'required: ' + etext
-        elif ty == 'str':
-            slot = 'required: false, not_found_message: ' + etext
         elif ty == 'list':
             slot = 'required: false, version: ' + etext
         else:
-            slot = 'required: ' + as_bool(etext, ty, is_tern)
+            slot = 'required: false, not_found_message: ' + (etext if ty == 'str' else fmt_wrap(etext))
         text = head + "dep = dependency('zlib', %s)\nprog = executable('prog', 'main.c', dependencies: dep)\n" % slot
         return {'id': cid, 'text': text, 'cmds': [c_kwargs('set', 'dependency', 'zlib', {'method': 'auto'})], 'form': 'json'}
     raise AssertionError(ctx)
@@ -976,7 +1146,7 @@ def layer_a_case(cid, etext, closed_text, ty, is_tern, ctx):
 
 def layer_a(ck, stats):
     env = L.own_env()
-    fam_full = L.family(ck.q(2, 3))
+    fam_full = L.family(ck.q(1, 3))
     n_small = len(L.family(1))
     cases = []
     dropped_syntax = dropped_illtyped = 0
@@ -996,32 +1166,16 @@ def layer_a(ck, stats):
                  expressions=len(exprs))
     for k, t, txt, small in exprs:
         ty = L.tree_type(t)
-        is_tern = t[0].startswith('tern')
         closed = L.render(t, closed=True)
         # the full family goes through the target call (both commands in thorough); the one-compound-operand
         # sub-family through every context
-        ctxs = ['target-call/src_add']
+        ctxs = ['target-call/src_add', 'target-call/kwargs']
         if small:
             ctxs = list(CONTEXTS) if ck.thorough else ['target-call/src_add', 'array', 'files', 'project', 'dependency']
-        elif ck.thorough:
-            ctxs = ['target-call/src_add', 'target-call/kwargs']
         for ctx in ctxs:
-            c = layer_a_case('A/%s/%d:%s' % (ctx, k, txt), txt, closed, ty, is_tern, ctx)
+            c = layer_a_case('A/%s/%d:%s' % (ctx, k, txt), txt, closed, ty, ctx)
             if c is None:
                 continue
-            if ctx in ('array', 'files') and ty == 'int':
-                # l[E] must stay inside the list in the file's own environment
-                try:
-                    if L.evalm(L.parse_expr(tern_wrap(txt, ty, is_tern)), env) == FAILM:
-                        continue
-                except SyntaxFail:
-                    continue
-            if ctx == 'project' and ty == 'int':
-                try:
-                    if L.evalm(L.parse_expr("['m', 'n', 'o', 'k', 'j', 'i', 'h'][" + closed + ']'), {}) == FAILM:
-                        continue
-                except SyntaxFail:
-                    continue
             c['layer'] = 'A'
             c['family'] = L.tree_label(t)
             cases.append(c)
@@ -1031,7 +1185,7 @@ def layer_a(ck, stats):
             if not small or t[0] == 'leaf':
                 continue
             rtxt = L.render(t, redundant=True)
-            c = layer_a_case('A/redundant/%d:%s' % (k, rtxt), rtxt, None, L.tree_type(t), False, 'target-call/src_add')
+            c = layer_a_case('A/redundant/%d:%s' % (k, rtxt), rtxt, None, L.tree_type(t), 'target-call/src_add')
             c['layer'] = 'A'
             c['family'] = 'redundant:' + L.tree_label(t)
             cases.append(c)
@@ -1039,7 +1193,7 @@ def layer_a(ck, stats):
     for name, lit in L.STRING_LITS:
         for ctx in CONTEXTS:
             closed = None if lit.startswith('f') else lit
-            c = layer_a_case('A/%s/str:%s' % (ctx, name), lit, closed, 'str', False, ctx)
+            c = layer_a_case('A/%s/str:%s' % (ctx, name), lit, closed, 'str', ctx)
             if c is None:
                 continue
             c['layer'] = 'A'
@@ -1075,7 +1229,7 @@ endif
 BENIGN_KW = """c_args: ['-Da\\\\b', '-Dgrüß', s + t, p ? s : t, '''-Dml
 x''', f'-D@s@', l[a - (b - c)]],
   build_by_default: (a + b) * c == 8,  # inner comment (documented as lost)
-  install: p and (q or r),
+  install: (p and q) or r,
   name_prefix: s / (t + u)"""
 
 
@@ -1091,7 +1245,7 @@ def shape_text(shape):
         tgt = "srcs = files('main.c', 'alpha.c')\n\nprog = executable('prog', srcs,\n  %s)\n" % tgt_kw
     elif shape == 'shared':
         tgt = "shared = ['shared.c']\nprog = executable('prog', shared + ['main.c', 'alpha.c'],\n  %s)\n" % tgt_kw
-        lib = "lib = static_library('lib', shared, 'lib.c', install: false)\n"
+        lib = "lib = static_library('lib', shared, 'main.c', 'lib.c', install: false)\n"
     elif shape == 'sources-kw':
         tgt = "prog = executable('prog', sources: ['main.c', 'alpha.c'],\n  %s)\n" % tgt_kw
     elif shape == 'duplicate':
@@ -1100,6 +1254,9 @@ def shape_text(shape):
         tgt = "prog = executable('prog', 'main.c', 'alpha.c', extra_files: ['README', 'NEWS'],\n  %s)\n" % tgt_kw
     elif shape == 'in-if':
         tgt = "if r\n    prog = executable('prog', 'main.c', 'alpha.c',\n      %s)   # kept comment\n    inner = 1\nendif\n" % tgt_kw
+    elif shape == 'odd-name':
+        # addressed through the variable it is assigned to
+        tgt = "prog = shared_library('my prog+x', 'main.c', 'alpha.c',\n  %s)\n" % tgt_kw
     elif shape == 'bare-call':
         tgt = "executable('prog', 'main.c', 'alpha.c',\n  %s)   # kept comment\n" % tgt_kw
     elif shape in ('no-final-newline', 'crlf'):
@@ -1113,7 +1270,7 @@ def shape_text(shape):
     return pl + FILLER_BEFORE + tgt + lib + FILLER_AFTER
 
 
-SHAPES_QUICK = ['literal', 'variable', 'files', 'shared', 'sources-kw', 'duplicate', 'extra-files', 'in-if', 'bare-call',
+SHAPES_QUICK = ['literal', 'variable', 'files', 'shared', 'sources-kw', 'duplicate', 'extra-files', 'in-if', 'bare-call', 'odd-name',
                 'no-final-newline', 'crlf']
 
 ALPHABET = [
@@ -1124,6 +1281,7 @@ ALPHABET = [
     ('rm-missing', c_target('prog', 'src_rm', ['nothere.c'])),
     ('rm-all', c_target('prog', 'src_rm', ['main.c', 'alpha.c'])),
     ('rm-new', c_target('prog', 'src_rm', ['new.c'])),
+    ('rm-shared', c_target('prog', 'src_rm', ['shared.c'])),
     ('xf-add', c_target('prog', 'extra_files_add', ['README.md'])),
     ('xf-add-existing', c_target('prog', 'extra_files_add', ['README'])),
     ('xf-rm', c_target('prog', 'extra_files_rm', ['README'])),
@@ -1154,6 +1312,9 @@ ALPHABET = [
     ('dep-set-required', c_kwargs('set', 'dependency', 'zlib', {'required': True})),
     ('dep-add-version', c_kwargs('add', 'dependency', 'zlib', {'version': '<2.0'})),
     ('dep-del-version', c_kwargs('delete', 'dependency', 'zlib', {'version': None})),
+    ('dep-rm-version', c_kwargs('remove', 'dependency', 'zlib', {'version': '>=1.0'})),
+    ('dep-rmre-version', c_kwargs('remove_regex', 'dependency', 'zlib', {'version': '>=.*'})),
+    ('dep-by-var', c_kwargs('set', 'dependency', 'dep', {'static': True})),
     ('dep-info', c_kwargs('info', 'dependency', 'zlib', {})),
     ('opt-set-existing', c_defopt('set', {'warning_level': '3'})),
     ('opt-set-new', c_defopt('set', {'buildtype': 'release'})),
@@ -1183,7 +1344,7 @@ def layer_b(ck):
         text = shape_text(sh)
         for x in pair_alpha:
             for y in pair_alpha:
-                forms = ('json', 'cli') if (ck.thorough or sh == 'literal') else ('json',)
+                forms = ('json', 'cli') if sh in (('literal', 'variable', 'shared') if ck.thorough else ('literal',)) else ('json',)
                 for form in forms:
                     cases.append({'id': 'B/%s/%s/%s,%s' % (sh, form, x, y), 'layer': 'B', 'text': text, 'cmds': [alpha[x], alpha[y]],
                                   'form': form, 'observe': True, 'family': 'pair'})
@@ -1279,7 +1440,7 @@ def main():
                    'literal class x every context; every command of a %d-command alphabet in CLI and JSON form on %d project shapes; '
                    'every ordered pair of %s commands. One evaluation = one real `meson rewrite` process whose result went through '
                    'clauses (1)-(4). distinct_nontrivial = distinct (layer, family, violation keys, file changed) outcome classes'
-                   % (ck.q(2, 3), CONTEXTS, len(ALPHABET), len(SHAPES_QUICK), ck.q('%d (4 shapes)' % len(PAIR_QUICK), 'all non-refused (all shapes)')),
+                   % (ck.q(1, 3), CONTEXTS, len(ALPHABET), len(SHAPES_QUICK), ck.q('%d (4 shapes)' % len(PAIR_QUICK), 'all non-refused (all shapes)')),
               exhaustive=True, cases=len(cases), cases_with_findings=n_viol_cases, skipped_unspecified=total['skipped_unspecified'],
               cold_revalidated=cold_n)
 
